@@ -24,7 +24,8 @@ def make_spec(task):
 def work(task):
     tree, scheme, ivar, k, decl, send, oracle_names = task
     spec = make_spec(task)
-    res = engine.explore(spec, k, [ORACLES[o] for o in oracle_names])
+    res = engine.explore(spec, k, [ORACLES[o] for o in oracle_names],
+                         builder='rebuilt' if decl == 'rebuilt' else 'api')
     res['desc'] = describe(spec)
     res['task'] = task
     return res
@@ -104,7 +105,7 @@ def replay(data):
     from . import probes
     task = _tupled(data['task'])
     spec = make_spec(task)
-    R = engine.Runner(spec)
+    R = engine.Runner(spec, 'rebuilt' if task[4] == 'rebuilt' else 'api')
     hist = tuple(_tupled(o) for o in (data['hist'] or []))
     print('chart    :', describe(spec))
     for t in spec['transitions']:
